@@ -359,7 +359,7 @@ def empty_group_skips(ctx, rep, rule: str) -> None:
     tests = []
     for n in cfg.nodes:
         if n.kind == "test":
-            t = n.ast.test
+            t = A.emptiness_normal(n.ast.test)  # `len(xs) == 0` is `not xs` for the tuple the slot holds
             if isinstance(t, ast.UnaryOp) and isinstance(t.op, ast.Not):
                 nm, key = A.subscript_key(repo, m, t.operand)
                 if key == "masked_blocked_grads":
